@@ -831,6 +831,15 @@ def deep2q(c, *args, **kwargs):
             return inner(*args, **kwargs)
         return l2()
     return l1(1)
+class Box(list):
+    def target(self, x, y=2, *, z): return (x, y, z)
+    def call(self, c, *args, **kwargs): return self.target(*args, **kwargs)
+    def __call__(self, c, *args, **kwargs): return self.target(*args, **kwargs)
+class Flag:
+    def __init__(self, v): self.v = v
+    def __bool__(self): return self.v
+    def target(self, x, y=2, *, z): return (x, y, z)
+    def call(self, c, *args, **kwargs): return self.target(*args, **kwargs)
 @modifiers.kwoargs('k')
 def kw(f, a, k=3, *args, **kwargs): return f(*args, **kwargs)
 def kw_native(f, a, *args, k=3, **kwargs): return f(*args, **kwargs)
@@ -874,6 +883,17 @@ def rt_probes_c06(req):
                     problems.append('nesting-depth-changes-outcome: the forwarding call written directly gives %s, nested as in %s it gives %s' % (
                         base, nm, got))
                     break
+            # what is discovered for a bound method does not depend on the truth value of the instance
+            for empty, full in ((mod.Box(), mod.Box([1])), (mod.Flag(False), mod.Flag(True))):
+                for attr in ('call',) + (('__call__',) if isinstance(empty, list) else ()):
+                    a, b = str(sigtools.signature(getattr(empty, attr))), str(sigtools.signature(getattr(full, attr)))
+                    if a != b:
+                        problems.append('falsy-instance-changes-outcome: %s.%s of a falsy instance is reported as %s, of a truthy one as %s' % (
+                            type(empty).__name__, attr, a, b))
+                if isinstance(empty, list):
+                    a, b = str(sigtools.signature(empty)), str(sigtools.signature(full))
+                    if a != b:
+                        problems.append('falsy-instance-changes-outcome: a falsy callable instance is reported as %s, a truthy one as %s' % (a, b))
             for dec, nat in (('kw', 'kw_native'), ('po', 'po_native'), ('au', 'kw_native')):
                 for extra in ((), (1,)):
                     pd = functools.partial(getattr(mod, dec), mod.inner, *extra)
